@@ -262,7 +262,7 @@ def finish(pid, violations, known_hits):
 # ----------------------------------------------------------------------------- generic S+B check
 def trace_family_check(pid, tier, tmp, replay, *, variant, driver, driver_args, trace_module, trace_cfg,
                        mc_module, mc_cfg, assume, sample_re, wit=None, extra_cov=None, mc_workers=12,
-                       reset_key='SReset', driver_timeout=1200, known_filter=None):
+                       reset_key='SReset', driver_timeout=1200, known_filter=None, post=None):
     """Stage S (TLC on mc_module/mc_cfg, optional one-worker witness run) in parallel with stage B
     (driver -> trace -> validation against trace_module).  Writes evidence and exits per contract."""
     import threading
@@ -294,7 +294,12 @@ def trace_family_check(pid, tier, tmp, replay, *, variant, driver, driver_args, 
         if 'seed' in first and 'scn' in first:
             args = [trace, first['seed'], 1] + [a for a in driver_args[2:]] + [first['scn']]
     rc, errlog = run_driver(variant, driver, args, tmp, timeout=driver_timeout)
-    if rc != 0:
+    if rc == 66 and variant == 'tsan':
+        # ThreadSanitizer's exit code: at least one data race / lock-order report on this run
+        rep = [l for l in open(errlog, errors='replace').read().splitlines() if not l.startswith('(inl)')][:120]
+        p = save_replay(pid, 'tsan_report.txt', rep)
+        violations.append({'replay': p, 'why': 'ThreadSanitizer reported a data race or deadlock in the real code: ' + ' | '.join(x.strip() for x in rep[:4])[:300]})
+    elif rc != 0:
         for t in ths:
             t.join()
         raise Infra('%s exited with %s: %s' % (driver, rc, open(errlog, errors='replace').read()[-1500:]))
@@ -333,5 +338,14 @@ def trace_family_check(pid, tier, tmp, replay, *, variant, driver, driver_args, 
            'build_variant': variant, 'exhaustive': False}
     if extra_cov:
         cov.update(extra_cov(lines))
+    if post:
+        # findings measured on the whole run: reported as KNOWN-FINDING only if listed in known_findings.txt
+        for k in post(cov):
+            key = k.split()[0]
+            if any(x.startswith('known:') and ('property=%s ' % pid) in x and key in x for x in known_findings_text()):
+                known.append(k)
+            else:
+                p = save_replay(pid, 'measured_finding.txt', [k])
+                violations.append({'replay': p, 'why': k})
     write_evidence(pid, tier, 'model_checking', cov, time.time() - t0, len(violations), assume)
     finish(pid, violations, sorted(set(known)))
